@@ -5,7 +5,6 @@ package nodenumaresource
 import (
 	"context"
 	"fmt"
-	"os"
 	"sort"
 	"strconv"
 	"strings"
@@ -281,10 +280,6 @@ type c19Obj struct {
 	term  bool
 }
 
-// c19TombNumaResv gates the tombstone shape for deletes of RESERVATIONS (see the suspected defect noted at
-// Close): with VERIF_C19_TOMB_NUMARESV=1 about 2 in 5 Reservation deletes arrive as DeletedFinalStateUnknown.
-var c19TombNumaResv = os.Getenv("VERIF_C19_TOMB_NUMARESV") == "1"
-
 func TestVerifC19Numa(t *testing.T) {
 	h := vOpen("C19")
 	if h == nil {
@@ -361,14 +356,11 @@ func TestVerifC19Numa(t *testing.T) {
 			return ls
 		}
 		// c19Del: the shape in which client-go hands a delete to OnDelete: the object pointer, or (a delete
-		// missed during a relist) cache.DeletedFinalStateUnknown{Key, Obj} BY VALUE, about 2 in 5.  The choice
-		// is always drawn (replays do not depend on the gate); `enabled` = false keeps the plain shape.
-		delShape := func(obj interface{}, enabled bool, what string) interface{} {
+		// missed during a relist) cache.DeletedFinalStateUnknown{Key, Obj} BY VALUE, about 2 in 5 (pods AND
+		// Reservations: the adapter's filter unwraps the tombstone since /repo c70eb65; before that it rejected it
+		// and the Reservation's CPUs stayed taken in the live ledger: C19:numa-rebuilt-differs).
+		delShape := func(obj interface{}, what string) interface{} {
 			tomb := r.Chance(2, 5)
-			if tomb && !enabled {
-				h.Tag("del:tombstone-gated-off:" + what)
-				tomb = false
-			}
 			if !tomb {
 				h.Tag("del:plain")
 				h.Tag("del:plain:" + what)
@@ -400,7 +392,7 @@ func TestVerifC19Numa(t *testing.T) {
 						rh.OnUpdate(old.DeepCopy(), o.resv.DeepCopy())
 					case 2:
 						// the model does not distinguish the two shapes: the same release is expected
-						rh.OnDelete(delShape(o.resv.DeepCopy(), c19TombNumaResv, "resv"))
+						rh.OnDelete(delShape(o.resv.DeepCopy(), "resv"))
 					}
 					return
 				}
@@ -410,7 +402,7 @@ func TestVerifC19Numa(t *testing.T) {
 				case 1:
 					eh.OnUpdate(o.pod.DeepCopy(), o.pod.DeepCopy())
 				case 2:
-					eh.OnDelete(delShape(o.pod.DeepCopy(), true, "pod"))
+					eh.OnDelete(delShape(o.pod.DeepCopy(), "pod"))
 				}
 			}) {
 				h.Obs("panic")
@@ -951,6 +943,40 @@ func TestVerifC19Numa(t *testing.T) {
 					holders[c][o.alloc.excl] = true
 				}
 			}
+			// ---- hypothesis of excl_mark_order_independent_partial (Props/C19.lean), evaluated on the survivors: all
+			// holders of a CPU agree on the exclusive policy.  Where it HOLDS the proved part is a checked clause
+			// (oracle 2c, fresh caches only: they are rebuilt from scratch, `release` never restores a marker): the
+			// rebuilt per-CPU marker is the agreed policy, in every delivery order / shape tried.
+			{
+				var heldCPUs []int
+				for c := range holders {
+					heldCPUs = append(heldCPUs, c)
+				}
+				sort.Ints(heldCPUs)
+				agreeAll := true
+				for _, c := range heldCPUs {
+					if len(holders[c]) != 1 {
+						agreeAll = false
+						continue
+					}
+					want := -1
+					for e := range holders[c] {
+						want = e
+					}
+					info, ok := na.allocatedCPUs[c]
+					if gotE := c19ExclEnum(info.ExclusivePolicy); !ok || gotE != want {
+						h.Fail("C19:numa-excl-mark-differs-though-holders-agree", "cpu %d: every surviving holder has exclusive policy %d but the rebuilt marker is %d (entry present=%v); rebuilt=%v",
+							c, want, gotE, ok, got)
+					}
+				}
+				if round == 0 {
+					if agreeAll {
+						h.Tag("hyp:excl-agree")
+					} else {
+						h.Tag("hyp:excl-disagree")
+					}
+				}
+			}
 			if !c19SameLines(got, live) {
 				shadowOnly := map[int]bool{} // in the live ledger a foreign marker can also stem from a deleted holder of a mixed CPU
 				for c := range shadowCPUs {
@@ -1005,7 +1031,7 @@ func TestVerifC19Numa(t *testing.T) {
 		}
 		h.End()
 	}
-	h.Close("history of bind (real Reserve+PreBind on a pod, or Reserve(NewReservePod)+PreBindReservation on a Reservation with its resource spec on the template or on itself) / delete / terminate / same-allocation update / duplicate add / hand-made objects on a 1-16 CPU topology (maxRef 1-3, CPU reuse as for reservation owners, NUMA amounts incl. zero and absent keys), cut anywhere, then two shuffled replays with duplicates into fresh caches. Rebuild shapes per surviving bound object (1/5 each, else plain add): add(unbound,annotated) then update(unbound->bound, same annotations); add before the fresh manager knows the node topology, topology arrives, no-change resync update. Event shapes: every delete goes to the registered OnDelete entry point (pod handler; FilteringResourceEventHandler+ReservationToPodEventHandler for Reservations), 2/5 of the pod deletes as cache.DeletedFinalStateUnknown{Key,Obj} by value (Reservation deletes too when VERIF_C19_TOMB_NUMARESV=1; gated off by default: the IsObjValidActiveReservation filter rejects the tombstone before the adapter's type switch, so the Reservation's CPUs stay taken in the live ledger); 1/12 of the steps and 1/8 of the replays add a degenerate delete (tombstone with a foreign-type / nil / typed-nil Obj, bare foreign object) that must change nothing. Non-trivial = >= 2 surviving allocations")
+	h.Close("history of bind (real Reserve+PreBind on a pod, or Reserve(NewReservePod)+PreBindReservation on a Reservation with its resource spec on the template or on itself) / delete / terminate / same-allocation update / duplicate add / hand-made objects on a 1-16 CPU topology (maxRef 1-3, CPU reuse as for reservation owners, NUMA amounts incl. zero and absent keys), cut anywhere, then two shuffled replays with duplicates into fresh caches. Rebuild shapes per surviving bound object (1/5 each, else plain add): add(unbound,annotated) then update(unbound->bound, same annotations); add before the fresh manager knows the node topology, topology arrives, no-change resync update. Event shapes: every delete goes to the registered OnDelete entry point (pod handler; FilteringResourceEventHandler+ReservationToPodEventHandler for Reservations), 2/5 of the pod AND Reservation deletes as cache.DeletedFinalStateUnknown{Key,Obj} by value (the IsObjValidActiveReservation filter must unwrap the tombstone before the adapter's type switch, else the Reservation's CPUs stay taken in the live ledger); 1/12 of the steps and 1/8 of the replays add a degenerate delete (tombstone with a foreign-type / nil / typed-nil Obj, bare foreign object) that must change nothing. Hypothesis coverage: hyp:excl-agree / hyp:excl-disagree = all surviving holders of every held CPU carry the same exclusive policy; where they do, the rebuilt marker must be that policy. Non-trivial = >= 2 surviving allocations")
 }
 
 var c19ShapeNames = []string{"add-bound", "add-unbound-then-update-bound", "add-early-then-object-then-resync"}
